@@ -26,7 +26,7 @@ type wireRun struct {
 	err    error
 }
 
-type wireCanned func(args []eval.Value) eval.Value
+type wireCanned func(args []eval.Value, sig *types.Signature) eval.Value
 
 func renderWire(v eval.Value) string {
 	switch x := unref(v).(type) {
@@ -62,6 +62,16 @@ func renderWire(v eval.Value) string {
 		if _, ok := x.F["qidx"]; ok {
 			return "res"
 		}
+		var ks []string
+		for k := range x.F {
+			ks = append(ks, k)
+		}
+		sort.Strings(ks)
+		var fs []string
+		for _, k := range ks {
+			fs = append(fs, k+":"+renderWire(x.F[k]))
+		}
+		return "{" + strings.Join(fs, " ") + "}"
 	case eval.Slice:
 		var ss []string
 		for _, e := range x.Elems() {
@@ -151,9 +161,26 @@ func runWiring(c *core.Ctx, pkg, entry string, args []eval.Value, numCPU int, ca
 						errCh = ch
 					}
 				}
-				if errCh != nil && !seenStage[key] {
+				errIdx := errResultIndex(sig)
+				if (errCh != nil || errIdx >= 0) && !seenStage[key] {
 					seenStage[key] = true
 					run.stages = append(run.stages, key)
+				}
+				if fail && errCh == nil && errIdx >= 0 {
+					// a synchronous step (reader, region builder, writer) that returns an error
+					e := eval.ErrVal{Msg: eval.S("step " + key + " failed")}
+					if sig.Results().Len() == 1 {
+						return e
+					}
+					t := eval.Tuple{}
+					for i := 0; i < sig.Results().Len(); i++ {
+						if i == errIdx {
+							t = append(t, e)
+						} else {
+							t = append(t, ev.Zero(sig.Results().At(i).Type()))
+						}
+					}
+					return t
 				}
 				if fail && errCh != nil {
 					e := eval.ErrVal{Msg: eval.S("stage " + key + " failed")}
@@ -177,7 +204,7 @@ func runWiring(c *core.Ctx, pkg, entry string, args []eval.Value, numCPU int, ca
 					}
 				}
 				if isCanned && can != nil {
-					return can(a)
+					return can(a, sig)
 				}
 				switch sig.Results().Len() {
 				case 0:
@@ -211,7 +238,7 @@ func runWiring(c *core.Ctx, pkg, entry string, args []eval.Value, numCPU int, ca
 	okWrite := func(ev *eval.Evaluator, pos token.Pos, recv eval.Value, a []eval.Value) eval.Value {
 		return eval.Tuple{eval.K(0), eval.Nil{}}
 	}
-	for _, name := range []string{"fmt.Fprintln", "fmt.Fprint", "fmt.Fprintf", "(*os.File).WriteString", "io.WriteString"} {
+	for _, name := range []string{"fmt.Fprintln", "fmt.Fprint", "fmt.Fprintf", "(*os.File).WriteString", "io.WriteString", "fmt.Println", "fmt.Printf", "fmt.Print"} {
 		ev.Extern[name] = okWrite
 	}
 	for _, name := range []string{"Stdin", "Stdout", "Stderr"} {
@@ -271,7 +298,7 @@ func checkWiring(c *core.Ctx, rule, pkg, entry string, scenarios []wireScenario)
 			continue
 		}
 		got, want := sortedCopy(r.events), sortedCopy(currentStageNames(c, sc.want))
-		if strings.Join(got, "\n") != strings.Join(want, "\n") {
+		if strings.Join(got, "\n") != strings.Join(want, "\n") && !sameWiringUpToRefactoredInterfaces(c, got, want) {
 			bad = append(bad, fmt.Sprintf("[%s] started but not specified: %s; specified but not started: %s", sc.label, strings.Join(diffOnly(got, want), " + "), strings.Join(diffOnly(want, got), " + ")))
 			continue
 		}
@@ -284,7 +311,7 @@ func checkWiring(c *core.Ctx, rule, pkg, entry string, scenarios []wireScenario)
 				continue
 			}
 			if _, ok := rf.result.(eval.ErrVal); !ok {
-				badErr = append(badErr, fmt.Sprintf("[%s] %s reports an error on the error channel, yet the entry point returns %s", sc.label, st, eval.Show(rf.result)))
+				badErr = append(badErr, fmt.Sprintf("[%s] %s reports an error (on the error channel, or as its result), yet the entry point returns %s", sc.label, st, eval.Show(rf.result)))
 			}
 		}
 	}
@@ -335,4 +362,119 @@ func currentStageNames(c *core.Ctx, events []string) []string {
 		}
 	}
 	return out
+}
+
+// wireLeaves splits a rendered event into its function name and the sorted multiset of its leaf arguments
+// (struct arguments flattened, field names dropped).
+func wireLeaves(e string) (string, []string) {
+	par := strings.Index(e, "(")
+	if par < 0 || !strings.HasSuffix(e, ")") {
+		return e, nil
+	}
+	name, body := e[:par], e[par+1:len(e)-1]
+	var leaves []string
+	depthSq := 0
+	cur := ""
+	flush := func() {
+		t := strings.TrimSpace(cur)
+		cur = ""
+		if t == "" {
+			return
+		}
+		if i := strings.Index(t, ":"); i > 0 && !strings.ContainsAny(t[:i], "[(\" ") && depthSq == 0 {
+			t = t[i+1:] // a struct field: drop its name
+		}
+		if t != "" && t != "chan" { // channels carry no information in an event; an unused one may have been dropped
+			leaves = append(leaves, t)
+		}
+	}
+	inStr := false
+	for i := 0; i < len(body); i++ {
+		ch := body[i]
+		switch {
+		case ch == '"':
+			inStr = !inStr
+			cur += string(ch)
+		case inStr:
+			cur += string(ch)
+		case ch == '[' || ch == '(':
+			depthSq++
+			cur += string(ch)
+		case ch == ']' || ch == ')':
+			depthSq--
+			cur += string(ch)
+		case (ch == '{' || ch == '}') && depthSq == 0:
+			flush()
+		case (ch == ',' || ch == ' ') && depthSq == 0:
+			flush()
+		default:
+			cur += string(ch)
+		}
+	}
+	flush()
+	sort.Strings(leaves)
+	return name, leaves
+}
+
+// sameWiringUpToRefactoredInterfaces: the stages started differ from the specification only in how arguments are
+// packaged (order, bundling into a struct) for stage functions whose signature is no longer the reference one.
+// For functions with the reference signature the comparison stays positional.
+func sameWiringUpToRefactoredInterfaces(c *core.Ctx, got, want []string) bool {
+	if len(got) != len(want) {
+		return false
+	}
+	canon := func(es []string) ([]string, bool) {
+		var out []string
+		for _, e := range es {
+			name, leaves := wireLeaves(e)
+			dot := strings.Index(name, ".")
+			if dot < 0 {
+				return nil, false
+			}
+			if c.SigChanged("pkg/"+name[:dot], name[dot+1:]) {
+				out = append(out, name+"~"+strings.Join(leaves, ","))
+			} else {
+				out = append(out, e)
+			}
+		}
+		sort.Strings(out)
+		return out, true
+	}
+	g, ok1 := canon(got)
+	w, ok2 := canon(want)
+	return ok1 && ok2 && strings.Join(g, "\n") == strings.Join(w, "\n")
+}
+
+// wireTyped lists the arguments of a recorded call with their static types; struct-typed parameters are opened
+// one level (a bundle of options is as good as the options themselves).
+type wireTypedArg struct {
+	t types.Type
+	v eval.Value
+}
+
+func wireTyped(a []eval.Value, sig *types.Signature) []wireTypedArg {
+	var out []wireTypedArg
+	for i := 0; i < sig.Params().Len() && i < len(a); i++ {
+		pt := sig.Params().At(i).Type()
+		out = append(out, wireTypedArg{pt, a[i]})
+		if st, ok := pt.Underlying().(*types.Struct); ok {
+			if sv, ok := unref(a[i]).(*eval.StructVal); ok {
+				for k := 0; k < st.NumFields(); k++ {
+					if fv, ok := sv.F[st.Field(k).Name()]; ok {
+						out = append(out, wireTypedArg{st.Field(k).Type(), fv})
+					}
+				}
+			}
+		}
+	}
+	return out
+}
+
+func wireFind(a []eval.Value, sig *types.Signature, pred func(t types.Type, v eval.Value) bool) eval.Value {
+	for _, ta := range wireTyped(a, sig) {
+		if pred(ta.t, ta.v) {
+			return ta.v
+		}
+	}
+	return nil
 }
